@@ -111,3 +111,21 @@ func (c *MemConn) SetWriteErr(err error) {
 	c.WriteErr = err
 	c.mu.Unlock()
 }
+
+// FailNextWrites makes the next n WriteTo calls fail with err (a transient local send error such as ENOBUFS);
+// nothing is emitted for them.
+func (c *MemConn) FailNextWrites(n int, err error) {
+	c.mu.Lock()
+	c.failN, c.failErr = n, err
+	c.mu.Unlock()
+}
+
+func (c *MemConn) takeFail() error {
+	c.mu.Lock()
+	defer c.mu.Unlock()
+	if c.failN > 0 {
+		c.failN--
+		return c.failErr
+	}
+	return nil
+}
